@@ -286,6 +286,13 @@ def check_spectrum_interp(run, drv, ncases, start=0):
                         and np.allclose(ev[:, 3], want_mid, rtol=1e-12)):
                     run.violation(f"interpolate_frequency({method}) does not return node values / fill value / the {method} value between nodes",
                                   dict(got=ev.tolist(), f=f.tolist(), fnew=fnew.tolist()))
+                if method == "linear":
+                    for nm, arr in zip(("a1", "b1", "a2", "b2"), meta["moments"]):
+                        gotm = np.asarray(getattr(out, nm).values, dtype=float)[:, 3]
+                        wantm = (arr[:, 1] * e[:, 1] + arr[:, 2] * e[:, 2]) / (e[:, 1] + e[:, 2])
+                        if not np.allclose(gotm, wantm, rtol=1e-9, atol=1e-12):
+                            run.violation("interpolate_frequency of a 1D spectrum does not interpolate energy-weighted moments",
+                                          dict(moment=nm, got=gotm.tolist(), want=wantm.tolist()))
             # 2D spectrum in time
             s2, m2 = sp.make_2d(rng, layout="time", nan_rate=0.0)
             E = m2["E"]
@@ -331,6 +338,9 @@ def check_c14(run, drv, ncases, start=0):
     P = 360.0
     for case in range(start, start + ncases):
         xp = circle_grid(rng)
+        if rng.random() < 0.3:
+            xp = xp[::-1].copy()           # periodic grid stored descending
+            run.count("periodic_descending")
         n = len(xp)
         xs = []
         for _ in range(rng.randint(2, 10)):
@@ -338,7 +348,8 @@ def check_c14(run, drv, ncases, start=0):
             if u < 0.25:
                 xs.append(float(rng.choice(list(xp))) + 360.0 * rng.choice([-2, -1, 0, 1, 2]))
             elif u < 0.4:
-                xs.append(float(xp[-1] + (xp[0] + 360 - xp[-1]) * rng.choice([0.25, 0.5, 0.75])) + 360.0 * rng.choice([-1, 0, 1]))
+                hi_, lo_ = max(xp[0], xp[-1]), min(xp[0], xp[-1])
+                xs.append(float(hi_ + (lo_ + 360 - hi_) * rng.choice([0.25, 0.5, 0.75])) + 360.0 * rng.choice([-1, 0, 1]))
             else:
                 xs.append(float(q64(rng.uniform(-1000, 1000))))
         xs = np.array(xs)
@@ -386,11 +397,20 @@ def check_c14(run, drv, ncases, start=0):
         if rng.random() < 0.5:
             ang = wrap(ang)      # stored in [-180, 180)
         targ = np.array([tt[0]] + [float(rng.uniform(tt[0], tt[-1])) for _ in range(5)] + [tt[-1], tt[-1] + 1.0])
-        dsd = xarray.Dataset({"mean_direction": (("time2",), ang), "speed": (("time2",), np.arange(nt) * 1.0)}, coords={"time2": tt})
+        dsd = xarray.Dataset({"mean_direction": (("time2",), ang), "speed": (("time2",), np.arange(nt) * 1.0),
+                              "longitude": (("time2",), wrap(ang))}, coords={"time2": tt})
         with warnings.catch_warnings():
             warnings.simplefilter("ignore")
             od = interpolate_dataset_along_axis(targ, dsd, coordinate_name="time2")
         dres = np.asarray(od["mean_direction"].values, dtype=float)
+        lres = np.asarray(od["longitude"].values, dtype=float)
+        for k, x in enumerate(targ):
+            if x > tt[-1] or dres[k] != dres[k]:
+                continue
+            run.case("longitude_var", key=(case, k))
+            if abs(wrap(lres[k] - dres[k])) > 2e-3:
+                run.violation("a longitude variable is not interpolated as an angle (it must equal the direction variable's result modulo 360)",
+                              dict(direction=float(dres[k]), longitude=float(lres[k])))
         for k, x in enumerate(targ):
             run.case("angle_avg", key=(case, k))
             if x > tt[-1]:
